@@ -756,6 +756,7 @@ func runCalls(t *testing.T, seg *Segment, progress *atomic.Int64) {
 
 	body := func(t *testing.T) {
 		s = newSched(seg, progress)
+		bubbleT0 := time.Now() // fake clock: 2000-01-01 at bubble start
 		rt.Attach(&rt.Sim{Q: s.q})
 		if seg.ClockNs > 0 {
 			time.Sleep(time.Duration(seg.ClockNs))
@@ -859,6 +860,7 @@ func runCalls(t *testing.T, seg *Segment, progress *atomic.Int64) {
 			// only results of finished workers are safe to read
 		}
 		s.fill(res)
+		res.SimNs = int64(time.Since(bubbleT0))
 		if reason == "" {
 			res.Leaks = leaks
 		} else {
